@@ -221,6 +221,22 @@ func (s *Session) SetModuleState(moduleName string, state any) {
 	s.moduleStates[moduleName] = state
 }
 
+// ModuleStateOrSet returns the state stored for the given module. When there
+// is none yet, it stores and returns the one built by newState. Looking the
+// state up and storing it is a single atomic step, so that participants that
+// join a fresh session at the same time all end up sharing the same state.
+func (s *Session) ModuleStateOrSet(moduleName string, newState func() any) any {
+	s.moduleMutex.Lock()
+	defer s.moduleMutex.Unlock()
+
+	state, ok := s.moduleStates[moduleName]
+	if !ok {
+		state = newState()
+		s.moduleStates[moduleName] = state
+	}
+	return state
+}
+
 func (s *Session) ModuleState(moduleName string) (any, bool) {
 	s.moduleMutex.RLock()
 	defer s.moduleMutex.RUnlock()
